@@ -139,6 +139,8 @@ fn cq(x: &mut Exec) -> Res {
         let mut seen_extra: Vec<Vec<usize>> = vec![vec![]; arms];
         let (mut finished_early, mut early_to, mut bad_bottom) = (false, false, false);
         let r = std::panic::catch_unwind(std::panic::AssertUnwindSafe(|| {
+            let (_quiet_tx, quiet_rx) = may::sync::mpsc::channel::<()>();
+            let mut quiet_rx = Some(quiet_rx);
             may::cqueue::scope(|cq| {
                 let mut sels = vec![];
                 for arm in 0..arms {
@@ -146,7 +148,10 @@ fn cq(x: &mut Exec) -> Res {
                     let n = evs2[arm];
                     let mut r = Rng::new(seeds[arm]);
                     let pa = panic_arm == Some(arm);
-                    let rm = remove_arm == Some(arm) || silent_arm == Some(arm);
+                    let rm = remove_arm == Some(arm);
+                    // the silent arm of the forever mode blocks on a channel nobody sends to: no timer, no hook
+                    // hit, so a poller that is not woken leaves the runtime quiescent
+                    let quiet = if silent_arm == Some(arm) { Some(quiet_rx.take().unwrap()) } else { None };
                     let s = go!(cq, arm, move |es| {
                         struct End(Arc<AtomicUsize>);
                         impl Drop for End {
@@ -162,7 +167,15 @@ fn cq(x: &mut Exec) -> Res {
                             bots[arm].fetch_add(1, SeqCst);
                         }
                         if pa {
+                            // give the poller time to go to sleep again: the final event of a panicking arm has
+                            // to wake it up by itself
+                            if r.chance(2, 3) {
+                                coroutine::sleep(Duration::from_micros(r.below(900)));
+                            }
                             panic!("ARM{}", arm);
+                        }
+                        if let Some(q) = quiet {
+                            let _ = q.recv();
                         }
                         if rm {
                             // stays until removed by the poller
